@@ -263,4 +263,10 @@ Proof.
   - inversion E; subst; cbn [actx]; auto.
   - inversion E; subst; cbn [actx]; auto.
   - destruct (rg c r1), (rg c r2); inversion E; subst; auto.
+  - (* MAllocWith *)
+    match type of E with context [init_obj ?kk ?ss ?ww] => destruct (init_obj kk ss ww) as [o|] eqn:IO end; [|inversion E; subst; auto].
+    assert (CW : col o = White) by (destruct k0; cbn in IO; try discriminate; inversion IO; reflexivity).
+    destruct (link c o) as [c1 i] eqn:EL.
+    pose proof (link_cinv c o I M CW) as M1. rewrite EL in M1. cbn [fst] in M1.
+    inversion E; subst. cbn [actx]. apply (cinv_same c1); auto.
 Qed.
